@@ -285,6 +285,7 @@ fn api_func(name: &str, args: &[SimpleExpr]) -> Option<FunctionCall> {
         "upper" => one(|x| Func::upper(x)),
         "bitand" => one(|x| Func::bit_and(x)),
         "bitor" => one(|x| Func::bit_or(x)),
+        "round" if args.len() == 2 => Some(Func::round_with_precision(args[0].clone(), args[1].clone())),
         "round" => one(|x| Func::round(x)),
         "md5" => one(|x| Func::md5(x)),
         "ifnull" if args.len() == 2 => Some(Func::if_null(args[0].clone(), args[1].clone())),
@@ -308,7 +309,6 @@ fn api_func(name: &str, args: &[SimpleExpr]) -> Option<FunctionCall> {
             })
         }
         "random" if args.is_empty() => Some(Func::random()),
-        "round" if args.len() == 2 => Some(Func::round_with_precision(args[0].clone(), args[1].clone())),
         // DATE_TRUNC('<unit>', e): the unit is spelled by Display for PgDateTruncUnit
         "pg12" => match args {
             [SimpleExpr::Value(Value::String(Some(u))), e] => {
@@ -664,6 +664,11 @@ pub fn expr(s: &S) -> SimpleExpr {
         "isnotnull" => via!(s, expr(&l[0]), is_not_null()),
         "castas" => via!(s, expr(&l[0]), cast_as(a(&hx(&l[1])))),
         "fncast" => SimpleExpr::FunctionCall(Func::cast_as(expr(&l[0]), a(&hx(&l[1])))),
+        "fncastq" => SimpleExpr::FunctionCall(Func::cast_as_quoted(
+            expr(&l[0]),
+            a(&hx(&l[1])),
+            sea_query::Quote::new(l[2].atom().parse::<u8>().unwrap()),
+        )),
         "andapi" => expr(&l[0]).and(expr(&l[1])),
         "orapi" => expr(&l[0]).or(expr(&l[1])),
         "notapi" => via!(s, expr(&l[0]), not()),
